@@ -131,8 +131,7 @@ theorem pre_ackBlock (p : List Hdr) (s : Tcb) (seg : Hdr) :
       dsimp only
       simp only [apply_ite (mapT (pre p)), mapT_ok]
       rfl
-    | TimeWait =>
-      exact pre_enqueueThen p s _ rfl _ _ rfl _ (fun u => rfl)
+    | TimeWait => rfl
 
 theorem pre_rstBlock (p : List Hdr) (s : Tcb) (seg : Hdr) :
     rstBlock (pre p s) seg = mapT (pre p) (rstBlock s seg) := by
